@@ -38,6 +38,12 @@ class PathView:
                     elif t.id in old_env and not (norm.names_in(old_env[t.id]) & (assigned - {t.id})):
                         # x = f(x): fold the previous definition in
                         env[t.id] = norm.substitute(st.node.value, {t.id: old_env[t.id]}, None, 1)
+            elif st.kind == "stmt" and isinstance(st.node, ast.AugAssign) and isinstance(st.node.target, ast.Name) \
+                    and isinstance(st.node.op, (ast.BitAnd, ast.BitOr)) and st.node.target.id in old_env \
+                    and not _contains_await(st.node.value):
+                # flag &= cond / flag |= cond on a local boolean: fold into the definition
+                op = ast.And() if isinstance(st.node.op, ast.BitAnd) else ast.Or()
+                env[st.node.target.id] = ast.BoolOp(op=op, values=[old_env[st.node.target.id], st.node.value])
             elif st.kind == "stmt" and isinstance(st.node, ast.AnnAssign) and st.node.value is not None:
                 t = st.node.target
                 if isinstance(t, ast.Name) and t.id not in norm.names_in(st.node.value):
